@@ -200,26 +200,36 @@ def spec_variable_new(tkind, skind, dims):
 
 # ---- TypedSymbol.type / scope and the rescope chain --------------------------------------------------------------
 class TableM:
-    """model of a SymbolTable for ONE symbol name (look-ups by other spellings are C12's business)"""
+    """model of a SymbolTable keyed by (concrete, lower-case) names; look-ups by other spellings are C12's business"""
 
-    def __init__(self, entry):
-        self.entry = entry
+    def __init__(self, entry, name='x'):
+        self.entries = {name: entry} if entry is not None else {}
+        self.default = name
         self.writes = []
 
+    @property
+    def entry(self):
+        return self.entries.get(self.default)
+
+    @entry.setter
+    def entry(self, v):
+        self.entries[self.default] = v
+
+    def _key(self, name):
+        return str(name).lower()
+
     def lookup(self, name, recursive=True):
-        return self.entry
+        return self.entries.get(self._key(name))
 
     def __setitem__(self, name, value):
-        self.writes.append(value)
-        self.entry = value
+        self.writes.append((self._key(name), value))
+        self.entries[self._key(name)] = value
 
     def __getitem__(self, name):
-        if self.entry is None:
-            raise KeyError(name)
-        return self.entry
+        return self.entries[self._key(name)]
 
     def __contains__(self, name):
-        return self.entry is not None
+        return self._key(name) in self.entries
 
 
 class Scope:
@@ -340,7 +350,7 @@ def spec_type_sharing(stored, new):
               ('unattached-symbol-keeps-its-own', B(c.type is r['own'])),
               ('private-slot-of-attached-untouched', B(a._type is None and b._type is None))]
         if new == 'other':
-            cl.append(('update-visible', B(entry is r['t'] and r['writes'] == [r['t']])))
+            cl.append(('update-visible', B(entry is r['t'] and [w[1] for w in r['writes']] == [r['t']])))
         if new == 'same':
             cl.append(('no-write-for-identical-type', B(r['writes'] == [])))
         if new == 'none':
@@ -388,6 +398,92 @@ def spec_rescope(target, own):
                notes=['rescope -> clone -> Variable -> TypedSymbol.__init__ -> type setter, all from real source'])
 
 
+def spec_rename_clone(target, passes):
+    """i.clone(name='arr' ...) of a symbol attached to a scope in which 'arr' is absent / declared with another type"""
+    def setup(spec):
+        env = {}
+        return (env,), {}, env
+
+    def run(env):
+        t_i = SymbolAttributes(BasicDtype(False), None, 'type-of-i')
+        t_arr = None if target == 'absent' else SymbolAttributes(BasicDtype(False), None, 'type-of-arr')
+        scope = Scope(t_i, 'scope')
+        scope.symbol_attrs.default = 'i'
+        scope.symbol_attrs.entries = {'i': t_i}
+        if t_arr is not None:
+            scope.symbol_attrs.entries['arr'] = t_arr
+        i = SymM(name='i', scope=scope)
+        w0 = len(scope.symbol_attrs.writes)
+        kw = {'name': 'arr'}
+        if passes == 'scope':
+            kw['scope'] = scope
+        new = i.clone(**kw)
+        return {'scope': scope, 't_i': t_i, 't_arr': t_arr, 'new': new, 'writes': scope.symbol_attrs.writes[w0:]}
+
+    def post(env, r):
+        B = z3.BoolVal
+        tab = r['scope'].symbol_attrs
+        cl = [('type-of-the-original-name-unchanged', B(tab.entries.get('i') is r['t_i'])),
+              ('clone-attached-to-the-scope', B(isinstance(r['new'], SymM) and r['new'].scope is r['scope']))]
+        if r['t_arr'] is not None:
+            cl += [('existing-entry-of-the-new-name-not-overwritten', B(tab.entries.get('arr') is r['t_arr'])),
+                   ('clone-has-the-type-recorded-for-its-name', B(r['new'].type is r['t_arr']))]
+        else:
+            cl.append(('undeclared-name-inherits-the-type', B(tab.entries.get('arr') is r['t_i'])))
+        return cl
+    return _mk('TypedSymbol.clone', setup, post, run, variant="rename to 'arr' (%s in scope), %s" % (
+        'declared' if target != 'absent' else 'undeclared', 'scope passed' if passes == 'scope' else 'scope inherited'),
+        decode=lambda env, m, r: {'function': 'TypedSymbol.clone', 'target': target})
+
+
+# ---- Variable._get_type_from_scope: derived-type members are typed by the parent's type definition -----------------
+class _Member:
+    def __init__(self, t):
+        self.type = t
+
+
+class _Parent:
+    def __init__(self, members):
+        self.variable_map = members
+
+    def __bool__(self):
+        return True
+
+
+GET_TYPE = inline(SYM, 'Variable._get_type_from_scope', dict(GT))
+
+
+def spec_get_type_from_scope(stored, parent_given, member):
+    def setup(spec):
+        env = {}
+        return (env,), {}, env
+
+    def run(env):
+        st = _stored(stored)
+        scope = Scope(st, 'scope')
+        scope.symbol_attrs.entries = {'a%b': st} if st is not None else {}
+        mt = SymbolAttributes(BasicDtype(False), None, 'typedef-member-type') if member else None
+        parent = _Parent({'b': _Member(mt)} if member else {})
+        made = []
+
+        def variable(**kw):
+            made.append(kw)
+            return parent
+        GET_TYPE.__globals__['Variable'] = variable
+        r = GET_TYPE(VariableCls, 'a%b', scope, parent if parent_given else None)
+        return {'r': r, 'st': st, 'mt': mt, 'writes': scope.symbol_attrs.writes}
+
+    def post(env, r):
+        B = z3.BoolVal
+        proper = r['st'] is not None and bool(r['st'].dtype)
+        want = r['st'] if proper else (r['mt'] if r['mt'] is not None else r['st'])
+        return [('type-recorded-for-the-member', B(r['r'] is want)), ('scope-not-written', B(not r['writes']))]
+    return _mk('Variable._get_type_from_scope', setup, post, run,
+               variant='a%%b: scope entry %s, parent %s, typedef %s b' % (stored, 'given' if parent_given else 'looked up',
+                                                                        'has' if member else 'lacks'),
+               decode=lambda env, m, r: {'function': 'Variable._get_type_from_scope', 'stored': stored})
+
+
 def specs(tier='quick'):
     out = []
     for tk in (None, 'passed-none', 'proc', 'derived', 'basic'):
@@ -397,6 +493,9 @@ def specs(tier='quick'):
     out += [spec_type_sharing(s, n) for s in ('absent', 'deferred', 'proper') for n in ('none', 'same', 'other')
             if not (s == 'absent' and n == 'same')]
     out += [spec_rescope(t, o) for t in ('absent', 'deferred', 'proper') for o in ('proper', 'none', 'attached-elsewhere')]
+    out += [spec_rename_clone(t, p) for t in ('absent', 'declared') for p in ('inherit', 'scope')]
+    out += [spec_get_type_from_scope(s_, pg, mb) for s_ in ('absent', 'deferred', 'proper') for pg in (True, False)
+            for mb in (True, False)]
     return out
 
 
@@ -414,8 +513,8 @@ META = {
                   'are loop-free, so the enumeration is complete for the stated abstraction.',
     'level_note': 'Trusted: pyvc engine; the scope table is abstracted to the entry for the one name involved (spelling / '
                   'nesting is C12); weakref.ref modelled as a plain reference (the scope outlives the symbol); '
-                  'Variable._get_type_from_scope is used through its first-tier contract (returns the scope entry), its '
-                  'derived-type member tier (parent.variable_map through typedefs) is unverified and named; pymbolic '
+                  'inside Variable.__new__ _get_type_from_scope is used through its contract; its own body (scope entry first, '
+                  'derived-type members through the parent typedef) is verified separately for a member name a%b; pymbolic '
                   'constructors (super().__init__) are no-ops; Array.rescope / MetaSymbol wrappers are unverified and named.',
     'trusted_base': ['pyvc engine', 'SymbolTable lookup/__setitem__ (C12 contracts)', 'weakref.ref (plain reference)',
                      'pymbolic primitives constructors'],
